@@ -411,8 +411,24 @@ def user_part(ctx):
             ('delete-last', lambda: DF.delete_resource(-1)),
         ]
         k = rng.randint(2, 8)
-        return [pool[rng.randrange(len(pool))] for _ in range(k)]
+        chosen = [pool[rng.randrange(len(pool))] for _ in range(k)]
+        special[0] = tick[0] % 3 == 0
+        if special[0]:
+            # every third pipeline: a second resource, later a package function that drops trailing resources,
+            # and at least one more step behind it
+            byname = dict(pool)
+            safe = ['lambda-row', 'add_field', 'filter', 'package-edit', 'callable-obj', 'printer']
+            dropper = rng.choice(['package-keep-first', 'package-drop-last'])
+            second = rng.choice(['duplicate', 'duplicate-end'])
+            chosen = ([(second, byname[second])] +
+                      [(n, byname[n]) for n in rng.sample(safe, rng.randint(0, 2))] +
+                      [(dropper, byname[dropper])] +
+                      [(n, byname[n]) for n in rng.sample(safe, rng.randint(1, 2))])
+        tick[0] += 1
+        return chosen
 
+    tick = [0]
+    special = [False]
     for _ in range(ctx.n(150, 2500)):
         n = rng.choice([0, 1, 3, 99, 100, 101, 260])
         data = [{'a': (i * 7) % 11, 'b': 'v%d' % (i % 5)} for i in range(n)]
@@ -436,6 +452,15 @@ def user_part(ctx):
         lazy = run([f() for f in facts])
         rep.case('user-pipeline', case, nontrivial='ok' in lazy)
         rep.hist('user_outcome', 'ok' if 'ok' in lazy else lazy['err'])
+        if any(l in ('package-keep-first', 'package-drop-last') for l in labels):
+            rep.hist('user_outcome_with_dropping_function', 'ok' if 'ok' in lazy else lazy['err'])
+        if special[0]:
+            # these pipelines consist of steps that cannot fail on this data: a package function that drops trailing
+            # resources is a legitimate link, the run succeeds and delivers exactly the kept resources
+            if 'ok' not in lazy:
+                rep.fail('user:dropping-package-function-fails', case, lazy)
+            elif len(lazy['ok']) != 1:
+                rep.fail('user:dropped-resources-still-delivered', case, {'resources': [r['name'] for r in lazy['ok']]})
         # staged: materialise after every step
         cur = None
         staged = None
